@@ -11,6 +11,12 @@ CHECKS = {
  'C02': ('hook event counters + exit() interception + fd-2 capture + sentinel presence, bounded-exhaustive over line-kind sequences',
          'all sequences of <= L line-kind representatives (L=3 quick, 4 thorough) plus random longer sequences and hostile byte strings, x 7 writers x {MMD, compat}: no parser syntax-error/parse-failure event, no unknown-token branch, no exit(), no hang, non-empty output, and every must-render line present. Exhaustive over representatives only.',
          'trusted: the guarded hooks (MMD6_VERIF) report every escape site listed in DESIGN 3.2; one representative text per line kind'),
+ 'C03': ('independent reference renderer (AST -> prescribed HTML) + spelling-equivalence and compositionality monitors over generated abstract documents',
+         'N abstract documents (1-8 blocks from 13 block kinds incl. nesting, 17 inline kinds) in {MMD, MMD+smart, compatibility} mode: reference rendering in a random spelling, 4 single-axis spelling variants vs the default (12 axes: bullet, marker indent, closing #, Setext, LF/CRLF, first number, rule form, fence length, title quoting, link style, emphasis char, trailing blanks), permutations of independent blocks vs concatenation; plus every ordered sibling pair and container>child pair of block kinds',
+         'the generator only emits unambiguous uses of the syntax and the reference renderer covers exactly those; inter-block whitespace follows the writer\'s one-blank-line discipline; leading spaces on paragraphs/headings/fences are not generated (not a documented equivalence)'),
+ 'C04': ('conservation / escaping / nesting monitors over sentinel documents per output format',
+         'N sentinel documents x {html, latex, beamer, memoir, fodt, opml}: every body word exactly once and in order (notes relocate as a block); 31 reserved characters x 28 syntactic positions appear only in a form the target allows and decode back to the character; HTML tag stack, LaTeX environment/brace balance, expat for FODT/OPML',
+         'smart typography off (C03 judges it); word order is judged for body words, attribute-like text (urls, titles, alt) is judged for presence'),
  'C05': ('history monitor: every output inside a long-lived process compared with the same conversion done first in a fresh process',
          'N histories (1..k conversions, 3 API families, reused engines with interleaved metadata queries/updates/resets) on pool and no-pool ASan builds; every output byte-equal to the fresh-process reference; caller source snapshotted around every call',
          'textual formats only (packages carry uuids/dates, compared in C06/C09); random anchors excluded as the property excludes them'),
